@@ -132,11 +132,17 @@ func VerifC16Middleware() {
 		memo = `{"provider": {"consumerId":"` + memoId + `"}, "forward": {}}`
 		byMemo = true
 	}
-	returning := vh.ConcretizeInt(vh.Int("denom_returning"), 0, 1) == 1
+	// 0: a coin foreign to the provider, 1: a provider-native coin coming back over the channel it
+	// left on, 2: a voucher the provider had received over another channel and forwarded, coming back
+	denomKind := vh.ConcretizeInt(vh.Int("denom_returning"), 0, 2)
 	denom, provDenom := vMwForeign, ""
-	if returning {
+	switch denomKind {
+	case 1:
 		denom, provDenom = vMwReturning, "uatom"
-	} else {
+	case 2:
+		denom = "transfer/" + vMwSrcChan + "/transfer/channel-9/stake"
+		provDenom = ibctransfertypes.NewDenom("stake", ibctransfertypes.NewHop("transfer", "channel-9")).IBCDenom()
+	default:
 		provDenom = ibctransfertypes.NewDenom(vMwForeign, ibctransfertypes.NewHop("transfer", vMwChannel)).IBCDenom()
 	}
 	amount := vh.BigInt("amount")
